@@ -86,7 +86,7 @@ class AddressbookDescriptionProperty(webdav.Property):
         el.text = resource.get_addressbook_description()
 
     async def set_value(self, href, resource, el):
-        resource.set_addressbook_description(el.text)
+        resource.set_addressbook_description(el.text if el is not None else None)
 
 
 class AddressbookMultiGetReporter(davcommon.MultiGetReporter):
